@@ -21,10 +21,10 @@ import (
 	"github.com/openbao/openbao/sdk/v2/helper/pathmanager"
 )
 
-func vxLockIndex(key string) uint8                              { return 0 }
-func vxPMNew() *pathmanager.PathManager                         { return &pathmanager.PathManager{} }
-func vxPMAdd(p *pathmanager.PathManager, paths []string)        {}
-func vxPMHas(p *pathmanager.PathManager, path string) bool      { return false }
+func vxLockIndex(key string) uint8                         { return 0 }
+func vxPMNew() *pathmanager.PathManager                    { return &pathmanager.PathManager{} }
+func vxPMAdd(p *pathmanager.PathManager, paths []string)   {}
+func vxPMHas(p *pathmanager.PathManager, path string) bool { return false }
 
 type vxLogger struct{ log.Logger }
 
@@ -67,12 +67,22 @@ func (m *vxKVCore) Put(ctx context.Context, e *Entry) error {
 	m.keys, m.vals = append(m.keys, e.Key), append(m.vals, v)
 	return nil
 }
+
+// a second scheduling point: right after a backend read has produced its result (the reader still inside the cache's
+// per-key critical section) another client may run
+var vxAfterBackendRead func()
+
 func (m *vxKVCore) Get(ctx context.Context, k string) (*Entry, error) {
 	m.gets++
+	var e *Entry
 	if i := m.find(k); i >= 0 {
-		return &Entry{Key: k, Value: append([]byte(nil), m.vals[i]...)}, nil
+		e = &Entry{Key: k, Value: append([]byte(nil), m.vals[i]...)}
 	}
-	return nil, nil
+	if f := vxAfterBackendRead; f != nil {
+		vxAfterBackendRead = nil
+		f()
+	}
+	return e, nil
 }
 func (m *vxKVCore) Delete(ctx context.Context, k string) error {
 	if i := m.find(k); i >= 0 {
@@ -100,6 +110,7 @@ func (m *vxKV) BeginTx(ctx context.Context) (Transaction, error) {
 	return t, nil
 }
 func (m *vxKV) BeginReadOnlyTx(ctx context.Context) (Transaction, error) { return m.BeginTx(ctx) }
+
 // one scheduling point is modelled: right after the storage commit of a transaction (and before the cache layer's
 // own post-commit step) another client's write may land
 var vxAfterStorageCommit func()
@@ -197,7 +208,6 @@ func VxCacheCoherence() {
 	}
 }
 
-
 // a cache transaction commits while another client writes the same key: the other write lands after the storage
 // commit but before the cache's post-commit step (the one interleaving the cache code itself warns about). Serial
 // order = transaction, then the other write; afterwards reads through the cache must return the other write's value.
@@ -242,4 +252,50 @@ func VxCacheCommitRacingWrite() {
 	vxAssert("storage holds the later write", gerr == nil && vxSame(e, want))
 	e, gerr = c.Get(ctx, key)
 	vxAssert("reads through the cache return the later write, not the transaction's superseded value", gerr == nil && vxSame(e, want))
+}
+
+// a cache transaction commits while a read of the same key is in flight in the parent cache: the reader has missed,
+// has read the pre-commit value from the backend and has not yet filled the cache when the commit arrives (second
+// logical thread, started inside the reader's critical section; it proceeds as far as the per-key lock lets it and is
+// resumed as soon as the reader releases it). Afterwards reads through the cache return the committed value.
+func VxCacheCommitRacingRead() {
+	ctx := context.Background()
+	kv := &vxKV{}
+	c := newCache(kv, 0, vxLogger{}, vxSink{}).(*transactionalCache)
+	c.SetEnabled(true)
+	k := vxChoose("key", 2)
+	key := vxKeys[k]
+	var old []byte
+	if vxBool("key initially present in the backend (not cached)") {
+		old = []byte{vxByte("initial")}
+		vxAssert("initial put", kv.Put(ctx, &Entry{Key: key, Value: old}) == nil)
+	}
+	tx, err := c.BeginTx(ctx)
+	vxAssert("begin ok", err == nil)
+	if vxBool("transaction reads the key first") {
+		_, gerr := tx.Get(ctx, key)
+		vxAssert("txn get ok", gerr == nil)
+	}
+	var want []byte
+	if vxBool("transaction deletes instead of writing") {
+		vxAssert("txn delete ok", tx.Delete(ctx, key) == nil)
+	} else {
+		want = []byte{vxByte("txn value")}
+		vxAssert("txn put ok", tx.Put(ctx, &Entry{Key: key, Value: want}) == nil)
+	}
+	committed := false
+	vxAfterBackendRead = func() {
+		vxSpawn(func() {
+			vxAssert("commit ok", tx.Commit(ctx) == nil)
+			committed = true
+		})
+	}
+	e, gerr := c.Get(ctx, key)
+	vxAssert("the in-flight read saw the backend read it started before the commit", gerr == nil && vxSame(e, old))
+	vxAssert("the commit completes once the reader is out of its critical section", committed)
+	vxReach("cache: commit raced by an in-flight read")
+	e, gerr = kv.Get(ctx, key)
+	vxAssert("storage holds the committed value", gerr == nil && vxSame(e, want))
+	e, gerr = c.Get(ctx, key)
+	vxAssert("reads through the cache after the commit return the committed value, not the one the in-flight read fetched", gerr == nil && vxSame(e, want))
 }
